@@ -81,6 +81,9 @@ impl Check for C19 {
             // client mode: the server holds the very scheme the client is configured with (nothing to push) and
             // sends only the unparsable one: afterwards everything must be as if nothing had been pushed
             "garbage_only": g.chance(30),
+            // client mode: two different valid schemes pushed to the same session one after the other — the last
+            // one is in force ("every such push during the life of the process")
+            "double_push": g.chance(15),
             "racing": g.chance(50), "race_payloads": [*g.pick(&[1u64, 50, 300, 1200]), *g.pick(&[1u64, 50, 300, 1200])],
             "payloads": (0..10).map(|_| *g.pick(&[0u64, 1, 50, 300, 1200, 4000])).collect::<Vec<_>>()})
     }
@@ -297,6 +300,7 @@ pub async fn run_client(plan: &Value) -> Outcome {
     if garbage && plan["garbage_only"].as_bool().unwrap_or(false) {
         schemes = vec![String::from_utf8_lossy(client_f.raw_scheme()).to_string()];
     }
+    let double_push = plan["double_push"].as_bool().unwrap_or(false);
     let state = Arc::new(Mutex::new(Script { announced: vec![], preamble_pad: vec![], current: 0 }));
     // scripted TLS server
     {
@@ -352,6 +356,11 @@ pub async fn run_client(plan: &Value) -> Outcome {
                                         reply.extend(rc::encode(rc::UPDATE_PADDING, 0, b"this is not a scheme\n0=1-2"));
                                     }
                                     if push {
+                                        if double_push && schemes.len() >= 2 {
+                                            // an earlier scheme first, the current one last
+                                            let other = schemes.iter().find(|s| **s != cur).cloned().unwrap_or_else(|| cur.clone());
+                                            reply.extend(rc::encode(rc::UPDATE_PADDING, 0, other.as_bytes()));
+                                        }
                                         reply.extend(rc::encode(rc::UPDATE_PADDING, 0, cur.as_bytes()));
                                     }
                                     reply.extend(rc::encode(rc::SERVER_SETTINGS, 0, b"v=2"));
